@@ -202,4 +202,51 @@ Section ArchiverProofs.
     cbn [astep]. intro E. injection E as <-. unfold set_tree. cbn [a_sent].
     rewrite offer_chunks_sent. reflexivity.
   Qed.
+  (* the data blobs of the new state are the chunks of its files *)
+  Lemma offer_chunks_all g cs : forall a,
+    a_all (offer_chunks g a cs) = a_all a ++ map (fun c => (Data, c)) cs.
+  Proof.
+    unfold offer_chunks. induction cs as [|c cs IH]; intro a; cbn [fold_left map].
+    - rewrite app_nil_r. reflexivity.
+    - rewrite IH. unfold offer. cbn [a_all]. rewrite <- app_assoc. reflexivity.
+  Qed.
+
+  Lemma astep_data g a it a' c :
+    astep tid g a it = Some a' ->
+    (In (Data, c) (a_all a') <-> In (Data, c) (a_all a) \/ In c (data_of [it])).
+  Proof.
+    intro S. destruct it as [nm m| |nm m cs]; cbn [astep] in S; unfold data_of; cbn [flat_map].
+    - injection S as <-. cbn. tauto.
+    - destruct (a_stack a) as [|[[nm m] tr] st]; [discriminate|]. injection S as <-.
+      unfold set_tree, offer. cbn [a_all]. rewrite in_app_iff. cbn [In]. split.
+      + intros [H|[H|[]]]; [left; exact H | discriminate].
+      + intros [H|[]]. left. exact H.
+    - injection S as <-. unfold set_tree. cbn [a_all]. rewrite offer_chunks_all, in_app_iff, app_nil_r.
+      rewrite in_map_iff. split.
+      + intros [H|[x [E H]]]; [left; exact H|]. injection E as <-. right. exact H.
+      + intros [H|H]; [left; exact H|]. right. exists c. split; [reflexivity | exact H].
+  Qed.
+
+  Lemma arun_data g c : forall its a a',
+    arun tid g a its = Some a' ->
+    (In (Data, c) (a_all a') <-> In (Data, c) (a_all a) \/ In c (data_of its)).
+  Proof.
+    induction its as [|it its IH]; intros a a' R; cbn [arun] in R.
+    - injection R as <-. unfold data_of. cbn. tauto.
+    - destruct (astep tid g a it) as [a1|] eqn:S; [|discriminate].
+      rewrite (IH a1 a' R), (astep_data g a it a1 c S).
+      assert (data_of (it :: its) = data_of [it] ++ data_of its) as ->
+        by (unfold data_of; cbn [flat_map]; rewrite app_nil_r; reflexivity).
+      rewrite in_app_iff. tauto.
+  Qed.
+
+  Lemma all_data_iff_lemma g its r c :
+    archive tid g its = Some r -> (In (Data, c) (r_all r) <-> In c (data_of its)).
+  Proof.
+    unfold archive. destruct (arun tid g a_init its) as [a|] eqn:R; [|discriminate].
+    intro E. injection E as <-. cbn [r_all]. unfold offer. cbn [a_all]. rewrite in_app_iff.
+    rewrite (arun_data g c its a_init a R). cbn [a_all a_init In]. split.
+    - intros [[[]|H]|[H|[]]]; [exact H | discriminate].
+    - intro H. left. right. exact H.
+  Qed.
 End ArchiverProofs.
